@@ -50,102 +50,8 @@ Proof.
   - cbn [app]. rewrite !csum_cons, IHl, vadd_assoc. reflexivity.
 Qed.
 
-(* ---- balance of a row update: contrib r' = dv + contrib r ----------------------------------------------- *)
-Definition row_ok (f : row -> row * vec) : Prop :=
-  forall r, contrib (fst (f r)) = snd (f r) +v contrib r /\ length (snd (f r)) = vlen /\ cid (fst (f r)) = cid r.
+(* (the per-row balance lemmas live in ProofsInv.v: `good`, under row well-formedness) *)
 
-Ltac brk :=
-  repeat (cbn; match goal with
-         | |- context[if ?b then _ else _] =>
-             match b with context[?v] => is_var v; match type of v with bool => destruct v end end
-         | |- context[B ?v] => is_var v; destruct v
-         | |- context[match ?p with PNone => _ | PHs => _ | PConn => _ end] => is_var p; destruct p
-         end).
-Ltac row_tac := intros [c p i e h dl bf xi xp f pe ui uu ur di du dr dn px tu td uc dc rq cu ps pc phh t cl];
-  brk; repeat split; try reflexivity.
-
-Lemma ok_id : row_ok (fun r => (r, vz)).
-Proof. intro r. cbv [fst snd]. split; [symmetry; apply vz_l, contrib_len | split; reflexivity]. Qed.
-Lemma ok_up_set_queued : row_ok up_set_queued.
-Proof. unfold row_ok, up_set_queued. row_tac. Qed.
-Lemma ok_up_set_not_queued : row_ok up_set_not_queued.
-Proof. unfold row_ok, up_set_not_queued. row_tac. Qed.
-Lemma ok_down_set_queued : row_ok down_set_queued.
-Proof. unfold row_ok, down_set_queued. row_tac. Qed.
-Lemma ok_rel_dc : row_ok rel_dc.
-Proof. unfold row_ok, rel_dc. row_tac. Qed.
-Lemma ok_rel_uc : row_ok rel_uc.
-Proof. unfold row_ok, rel_uc. row_tac. Qed.
-Lemma ok_erase_td : row_ok erase_td.
-Proof. unfold row_ok, erase_td. row_tac. Qed.
-Lemma ok_erase_tu : row_ok erase_tu.
-Proof. unfold row_ok, erase_tu. row_tac. Qed.
-
-Lemma ok_choke_reqs : row_ok choke_reqs.
-Proof. unfold row_ok, choke_reqs. row_tac. Qed.
-
-Lemma ok_seq2 : forall f g', row_ok f -> row_ok g' -> row_ok (seq2 f g').
-Proof.
-  intros f g' Hf Hg r. unfold seq2.
-  destruct (Hf r) as [H1 [L1 C1]]. destruct (f r) as [r1 d1] eqn:E1. cbn in *.
-  destruct (Hg r1) as [H2 [L2 C2]]. destruct (g' r1) as [r2 d2] eqn:E2. cbn in *.
-  repeat split.
-  - rewrite H2, H1. rewrite <- vadd_assoc. f_equal. apply vadd_comm.
-  - apply vadd_len; auto.
-  - congruence.
-Qed.
-
-Lemma ok_down_set_not_queued : row_ok down_set_not_queued.
-Proof.
-  unfold row_ok, down_set_not_queued, idle_down, seq2, erase_td, rel_dc.
-  intros [c p i e h dl bf xi xp f pe ui uu ur di du dr dn px tu td uc dc rq cu ps pc phh t cl].
-  cbn. destruct di, du; cbn; try (destruct cu; try destruct rq); cbn; brk; repeat split; reflexivity.
-Qed.
-
-Lemma ok_conn_msg_simple : forall m, row_ok (conn_msg_simple m).
-Proof.
-  intros m. destruct m; cbn [conn_msg_simple]; try apply ok_id.
-  - repeat apply ok_seq2; auto using ok_rel_dc, ok_down_set_not_queued, ok_erase_td, ok_choke_reqs.
-  - intro r. cbn [conn_msg_simple]. destruct (dint r); [apply (ok_down_set_queued r) | apply (ok_id r)].
-  - apply ok_up_set_queued.
-  - apply ok_up_set_not_queued.
-Qed.
-
-Lemma ok_lib_msg_row : forall m, row_ok (lib_msg_row m).
-Proof.
-  intros m. destruct m; cbn [lib_msg_row].
-  - apply ok_seq2; auto using ok_erase_tu, ok_rel_uc.
-  - unfold row_ok. row_tac.
-  - unfold row_ok. row_tac.
-  - unfold row_ok. row_tac.
-  - apply ok_id.
-Qed.
-
-Lemma ok_to_conn : forall sd r, ph r = PHs ->
-  contrib (fst (to_conn sd r)) = snd (to_conn sd r) +v contrib r /\ length (snd (to_conn sd r)) = vlen /\ cid (fst (to_conn sd r)) = cid r.
-Proof.
-  intros sd [c p i e h dl bf xi xp f pe ui uu ur di du dr dn px tu td uc dc rq cu ps pc phh t cl] H.
-  cbn in H. subst p. cbn. brk; repeat split; reflexivity.
-Qed.
-
-Lemma ok_cleanup : forall r, ph r = PConn -> fd r = true ->
-  contrib (fst (cleanup_row r)) = snd (cleanup_row r) +v contrib r /\ length (snd (cleanup_row r)) = vlen /\ cid (fst (cleanup_row r)) = cid r.
-Proof.
-  intros [c p i e h dl bf xi xp f pe ui uu ur di du dr dn px tu td uc dc rq cu ps pc phh t cl] H1 H2.
-  cbn in H1, H2. subst p f. unfold cleanup_row.
-  destruct ui, uu, di, du, px, tu, td, uc, dc; repeat split; reflexivity.
-Qed.
-
-Lemma ok_destroy : forall r, ph r = PHs -> fd r = true ->
-  contrib (fst (destroy_row r)) = snd (destroy_row r) +v contrib r /\ length (snd (destroy_row r)) = vlen /\ cid (fst (destroy_row r)) = cid r.
-Proof.
-  intros [c p i e h dl bf xi xp f pe ui uu ur di du dr dn px tu td uc dc rq cu ps pc phh t cl] H1 H2.
-  cbn in H1, H2. subst p f. unfold destroy_row.
-  destruct ui, uu, di, du, px, tu, td, uc, dc; repeat split; reflexivity.
-Qed.
-
-
-(* ---- abort of one row: everything released, descriptor closed exactly once more -------------------------- *)
 Lemma cleanup_row_zero : forall r,
   row_zero (fst (cleanup_row r)) = true /\ contrib (fst (cleanup_row r)) = vz /\
   closes (fst (cleanup_row r)) = closes r + 1 /\
@@ -163,7 +69,7 @@ Lemma destroy_row_zero : forall r, hs_clean r ->
   closes (fst (destroy_row r)) = closes r + 1 /\
   pi_c (fst (destroy_row r)) = false /\ pi_h (fst (destroy_row r)) = false.
 Proof.
-  intros [c p i e h dl bf xi xp f pe ui uu ur di du dr dn px tu td uc dc rq cu ps pc phh t cl] H.
+  intros [c p i e h dl bf xi xp f pe ui uu ur usn di du dr dn px tu td uc dc rq cu ps pc phh t cl] H.
   unfold hs_clean in H. cbn in H. destruct H as (-> & -> & -> & -> & -> & -> & -> & -> & -> & ->).
   unfold destroy_row. cbn. repeat split; reflexivity.
 Qed.
